@@ -34,6 +34,7 @@ type phase struct {
 	Name    string
 	Pkg     string
 	Race    bool
+	Env     []string
 	Quick   tierCfg
 	Thor    tierCfg
 	Prepare func(work string) (extraArgs []string, env []string, cleanup func(), err error)
@@ -201,6 +202,7 @@ func main() {
 		}
 		pwork := filepath.Join(work, ph.Name)
 		os.MkdirAll(pwork, 0o755)
+		replayEnv = ph.Env
 		bin := filepath.Join(verif, ".build", id+"-"+ph.Name+".test")
 		args := []string{"test", "-c", "-o", bin}
 		if ph.Race {
@@ -250,6 +252,7 @@ func main() {
 					fmt.Sprintf("VERIF_BUDGET_MS=%d", tc.Budget.Milliseconds()),
 					"VERIF_SKIPKEYS=" + strings.Join(skip, ";"),
 				}
+				e = append(e, ph.Env...)
 				if ph.Race {
 					e = append(e, "GORACE=halt_on_error=0 log_path="+filepath.Join(pwork, fmt.Sprintf("race-w%d", w)))
 				}
@@ -310,7 +313,7 @@ func main() {
 
 		// probes (fixed plans: known findings and regression cases)
 		pres := filepath.Join(pwork, "probes.json")
-		if out, err := runBin(bin, []string{"VERIF_MODE=probes", "VERIF_TIER=" + tier, "VERIF_OUT=" + pwork, "VERIF_RESULT=" + pres, "GORACE=halt_on_error=0 log_path=" + filepath.Join(pwork, "race-probes")}, 10*time.Minute); err != nil {
+		if out, err := runBin(bin, append([]string{"VERIF_MODE=probes", "VERIF_TIER=" + tier, "VERIF_OUT=" + pwork, "VERIF_RESULT=" + pres, "GORACE=halt_on_error=0 log_path=" + filepath.Join(pwork, "race-probes")}, ph.Env...), 10*time.Minute); err != nil {
 			harness = "probes failed: " + err.Error() + "\n" + tail(out, 30)
 		} else if b, err := os.ReadFile(pres); err == nil {
 			var pr map[string]struct {
@@ -356,6 +359,7 @@ func main() {
 			}
 			minPath := filepath.Join(pwork, fmt.Sprintf("min-%d.json", i))
 			e := []string{"VERIF_MODE=shrink", "VERIF_TIER=" + tier, "VERIF_PLAN=" + v.plan, "VERIF_KEY=" + k, "VERIF_RESULT=" + minPath, "VERIF_OUT=" + pwork, "VERIF_SHRINK_MS=90000"}
+			e = append(e, ph.Env...)
 			if ph.Race {
 				e = append(e, "VERIF_SHRINK_RUNS=150", "GORACE=halt_on_error=0 log_path="+filepath.Join(pwork, "race-shrink"))
 			}
@@ -481,10 +485,12 @@ func main() {
 	fmt.Printf("OK property=%s held on everything explored\n", id)
 }
 
+var replayEnv []string
+
 func replayOnce(bin string, race bool, plan, dir string, j int) (key, hash, detail string) {
 	rf := filepath.Join(dir, fmt.Sprintf("replay-%d-%d.json", time.Now().UnixNano(), j))
 	defer os.Remove(rf)
-	e := []string{"VERIF_MODE=replay", "VERIF_PLAN=" + plan, "VERIF_RESULT=" + rf}
+	e := append([]string{"VERIF_MODE=replay", "VERIF_PLAN=" + plan, "VERIF_RESULT=" + rf}, replayEnv...)
 	if race {
 		lp := filepath.Join(dir, fmt.Sprintf("race-replay-%d", time.Now().UnixNano()))
 		e = append(e, "GORACE=halt_on_error=0 log_path="+lp)
@@ -552,6 +558,7 @@ func replayCmd(id, plan string) {
 	if out, err := cmd.CombinedOutput(); err != nil {
 		die2("build failed: %v\n%s", err, out)
 	}
+	replayEnv = ph.Env
 	k, h, d := replayOnce(bin, ph.Race, abs, work, 0)
 	fmt.Printf("replay key=%q hash=%s\n%s\n", k, h, indent(clip(d, 3000)))
 	if strings.HasPrefix(k, "harness/") {
